@@ -159,6 +159,13 @@ func c08Frags(r *plan.Rng) []c08Frag {
 			"r3z := g0(inp) + g1(inp + 1)",
 			"hof := func(fn, x) { return fn(fn(x)) }",
 			"r3y := hof(g0, inp)"}},
+		{name: "freezeModule", mods: []string{"simmod"}, lines: []string{
+			"smf := import(\"simmod\")",
+			"fz := freeze(smf)",
+			"fz2 := freeze([smf, {m: smf}])",
+			"r8f := type_name(smf.tbl) + \"|\" + type_name(fz.tbl) + \"|\" + type_name(smf.mp.l) + \"|\" + type_name(fz2[1].m.mp.l)",
+			"r8g := smf.tbl + [inp]",
+			"r8h := is_array(smf.mp.l) && !is_array(fz.mp.l)"}},
 		{name: "moduleTableAppend", mods: []string{"simmod"}, lines: []string{
 			"sma := import(\"simmod\")",
 			"r8a := sma.tbl + [inp]",
